@@ -221,8 +221,11 @@ def _build_store(case):
     if case["has_z"]:
         cols["z"] = np.arange(n, dtype="float64") * 0.5
     if case["has_pos"]:
-        cols["lat"] = np.full(n, 10.25)
-        cols["lon"] = np.arange(n, dtype="float64") - 3.0
+        # (a platform may report only one of the two: pos_only = "lat" / "lon")
+        if case.get("pos_only") != "lon":
+            cols["lat"] = np.full(n, 10.25)
+        if case.get("pos_only") != "lat":
+            cols["lon"] = np.arange(n, dtype="float64") - 3.0
     for sid, vals in case["streams"].items():
         cols[sid] = core.to_float_array([None if v is None else F(v) for v in vals])
     df = pd.DataFrame(cols)
@@ -263,7 +266,9 @@ def _build_store(case):
         if case["has_z"]:
             kw["z"] = cols["z"]
         if case["has_pos"]:
-            kw["lat"], kw["lon"] = cols["lat"], cols["lon"]
+            for ax in ("lat", "lon"):
+                if ax in cols:
+                    kw[ax] = cols[ax]
         return PandasStore(NumpyStream(inp=inp, **kw).run(cfg), axes)
     return PandasStore(PandasStream(df).run(cfg), axes)
 
@@ -330,6 +335,26 @@ def _pipeline_check(case, df):
             empty = {i for i, v in enumerate(df[col].tolist()) if pd.isna(v)}
             if empty != set(range(n)) - rows:
                 return f"X:evaluated-rows:{col}:{sorted(empty)}"
+    # the depth / position columns (default names) hold the table's own values on every row the FIRST collected result
+    # evaluated (the axes are taken from the first result that has them), and nothing else anywhere
+    if case.get("write_axes") in (None, True) and not case.get("axes") and pairs:
+        first_rows = next(iter(pairs.values()))
+        src = {}
+        if case["has_z"]:
+            src["z"] = [0.5 * i for i in range(n)]
+        if case["has_pos"] and case.get("pos_only") != "lon":
+            src["lat"] = [10.25] * n
+        if case["has_pos"] and case.get("pos_only") != "lat":
+            src["lon"] = [float(i) - 3.0 for i in range(n)]
+        for ax, vals in src.items():
+            if ax in df and ax not in names and ax not in case["streams"]:
+                col = df[ax].tolist()
+                for i in range(n):
+                    if pd.isna(col[i]):
+                        if i in first_rows:
+                            return f"X:axis-column:{ax}:row{i}:empty"
+                    elif float(col[i]) != vals[i]:
+                        return f"X:axis-column:{ax}:row{i}:{col[i]}"
     # a data column holds the values of ITS OWN stream (or nothing) on every row
     for sid, vals in case["streams"].items():
         if sid in df and sid not in names:
@@ -625,6 +650,9 @@ def gen_store(tier, rng):
         if c["mode"] == "pipe" and "time" not in c["streams"] and not any(s in c["streams"] for s in ("z", "lat", "lon")) \
                 and rng.random() < 0.25:
             c["frontend"] = "numpy_masked"
+    for c in cases:
+        if c["mode"] == "pipe" and c.get("has_pos") and rng.random() < 0.2:
+            c["pos_only"] = rng.choice(["lat", "lon"])
     for c in cases:
         if c.get("domain", True) and rng.random() < 0.25:
             c["presave"] = rng.choice(["default", "data", "noaxes"])
